@@ -113,10 +113,27 @@ fn lifetime_ending(n: usize, scripts: &[Vec<bool>], by_panic: bool) -> (Vec<Stri
 /// one lifetime in which the call site N is installed several times, on `target` and `target2`
 /// alternately, with the given calls after each installation (single thread)
 fn lifetime_multi(n: usize, installs: &[Vec<bool>], by_panic: bool) -> (Vec<String>, String) {
+    lifetime_multi_u(n, installs, by_panic, false)
+}
+
+/// `unwinding_install`: the first installation is made by a destructor that runs while the thread is
+/// unwinding (a fixture's tear-down that sets up a stub), the injector outliving the unwinding
+fn lifetime_multi_u(n: usize, installs: &[Vec<bool>], by_panic: bool, unwinding_install: bool) -> (Vec<String>, String) {
     let mut inj = InjectorPP::new();
     let mut outs = Vec::new();
     for (i, calls) in installs.iter().enumerate() {
-        if i % 2 == 0 {
+        if i == 0 && unwinding_install {
+            struct D<'a>(&'a mut InjectorPP, usize);
+            impl Drop for D<'_> {
+                fn drop(&mut self) {
+                    self.0.when_called(shadow::func!(fn (target)(i32) -> i32)).will_execute(mk(self.1));
+                }
+            }
+            let _ = quiet_catch(std::panic::AssertUnwindSafe(|| {
+                let _d = D(&mut inj, n);
+                panic!("the body panics; the tear-down installs");
+            }));
+        } else if i % 2 == 0 {
             inj.when_called(shadow::func!(fn (target)(i32) -> i32)).will_execute(mk(n));
         } else {
             inj.when_called(shadow::func!(fn (target2)(i32) -> i32)).will_execute(mk(n));
@@ -302,10 +319,11 @@ pub fn run(a: &Args, out: &mut impl Write) {
                 installs.push(s);
             }
             let by_panic = r.chance(1, 4);
-            let (outs, ex) = lifetime_multi(n, &installs, by_panic);
+            let unwinding_install = r.chance(1, 5);
+            let (outs, ex) = lifetime_multi_u(n, &installs, by_panic, unwinding_install);
             let sc: Vec<String> = installs.iter().map(|s| script_str(s)).collect();
             let os: Vec<String> = outs.iter().map(|o| if o.is_empty() { "-".to_string() } else { o.clone() }).collect();
-            parts.push(format!("{}{}:{}:{}", sc.join("+"), if by_panic { "!" } else { "" }, os.join("+"), ex.replace(':', ",")));
+            parts.push(format!("{}{}{}:{}:{}", if unwinding_install { "^" } else { "" }, sc.join("+"), if by_panic { "!" } else { "" }, os.join("+"), ex.replace(':', ",")));
         }
         writeln!(out, "life {} | {}", n, parts.join(" ")).unwrap();
     }
